@@ -17,7 +17,7 @@ MANIFEST = dict(
           "(proof script: fan edges in the plane, fan normals parallel to n by BAC-CAB, |w| = w.n by Lagrange, the centre is left of every edge as the mean of the all-pairs edge tests, so every fan triangle is positively oriented and the fan sum is the shoelace sum); ConvexPolyhedron.volume / area / length on a tetrahedron with symbolic vertices, faces given in arbitrary orientation, the body built by the real constructor: volume = |det(e1, e2, e3)| / 6 (relative 1e-9), area = sum of the four face areas, length = sum of the six edge lengths, body unchanged (callees by contract: triangle area, Pyramid.volume, Vector.length / normalized). "
           "BOUNDED (labelled, not counted as proved): ConvexPolygon.length/area for other orderings / larger n and ConvexPolyhedron.length/area/volume on catalogue polygons (3-8 vertices) and polyhedra (tetrahedra, boxes, prisms, pyramids, octahedra, hulls) "
           "in oblique poses under vertex permutations, face permutations, face rotations and face orientations, against exact rational cross-product / determinant formulas, relative tolerance 1e-9; volume(x) == x.volume()."),
-    note=("The polygon proofs assume the invariant the constructor establishes (C09: proved for n <= 4, bounded above); the polyhedron sums are proved on tetrahedra only (one orientation pattern on every change, five thorough) and bounded beyond. Shape bound n <= 6 (8). A1, A5."),
+    note=("The polygon proofs assume the invariant the constructor establishes (C09: proved for n <= 5, bounded above); the polyhedron sums are proved on tetrahedra only (one orientation pattern on every change, five thorough) and bounded beyond. Shape bound n <= 6 (8). A1, A5."),
     technique="contract-based deductive verification of the triangle / pyramid / segment measures (z3 with ghost scalars) + labelled bounded stand-in with exact rational reference for polygon and polyhedron sums",
     design_ref="DESIGN.md section 9 (C06)",
 )
